@@ -34,6 +34,22 @@ class ProgErr(Exception):
         self.tag = tag
 
 
+class ProgEq(ProgErr):
+    """all instances compare equal (like a dataclass exception with equal fields): failures are
+    told apart by identity, never by =="""
+    def __eq__(self, other):
+        return isinstance(other, ProgEq)
+
+    def __hash__(self):
+        return 7
+
+
+class ProgFalsy(ProgErr):
+    """an exception that is falsy (like an empty error collection with __len__)"""
+    def __bool__(self):
+        return False
+
+
 class ProgLookup(LookupError):
     def __init__(self, tag):
         super().__init__(tag)
@@ -72,7 +88,7 @@ class ProgKbd(KeyboardInterrupt):
 
 EXC_TYPES = {
     'err': ProgErr, 'lookup': ProgLookup, 'key': ProgKey, 'index': ProgIndex,
-    'assert': ProgAssert, 'exit': ProgExit, 'kbd': ProgKbd,
+    'assert': ProgAssert, 'exit': ProgExit, 'kbd': ProgKbd, 'eq': ProgEq, 'falsy': ProgFalsy,
 }
 PRIVILEGED = (SystemExit, KeyboardInterrupt, AssertionError)
 PUBLIC_EXC = (TaskCancelled, TaskClosed, StreamClosed, ResourcesUnavailable,
@@ -149,6 +165,7 @@ class Env:
         self.names_used = {}
         self.cancel_calls = {}    # task instance name -> [(time, token, status at call, n)]
         self.await_results = {}   # task instance name -> [(awaiter, kind, ident)]
+        self.returned = {}        # task instance name -> repr of what its payload returned
         self.awaiting = {}        # key -> (awaiter, task instance name, task, since): in `await task`
         self.refused = []         # (coroutine weakref, name) of payloads refused by do()
         self.task_names = {}      # id(task) -> instance name
@@ -489,6 +506,7 @@ async def _activity(env, ctx, spec):
                                      exc_name(exc) if kind == 'failed' else kind))
         raise
     env.log(ctx.name, 'finish')
+    env.returned[ctx.name] = repr(spec.get('result'))
     env.shadow['done'][spec['name']] = True
     if ctx.parent_key is not None and env.sess.armed and env.sess.stack:
         info = env.scope_inst.get(ctx.parent_key)
@@ -1026,7 +1044,10 @@ async def op_watch(env, ctx, step):
     notification, as a volatile child of the innermost block of this activity (or of the block
     it was started in).  The watcher itself is invisible to the monitors; what they see is what
     happens to everybody else."""
-    scope = ctx.scopes[-1] if ctx.scopes else ctx.parent_scope
+    if step.get('scope'):
+        scope = env.scopes.get(step['scope'], (None, None))[0]
+    else:
+        scope = ctx.scopes[-1] if ctx.scopes else ctx.parent_scope
     if scope is None:
         return 'noscope'
     if step['payload'] == 'task':
@@ -1232,6 +1253,41 @@ class LifecycleMonitor:
                 if final == 'CANCELLED' and not kinds <= {'TaskCancelled', 'TaskClosed'}:
                     sess.violation('c06:outcome-does-not-match-status',
                                    'task %s is CANCELLED but awaiters got %s' % (name, kinds))
+        # ground truth from the payload's own log: a payload that ended by raising an exception
+        # of the program makes a FAILED task whose awaiters receive that exception
+        for event in sess.events:
+            if event[2] == 'fail' and str(event[3]).startswith('Prog'):
+                task = env.task_inst.get(event[1])
+                if task is None:
+                    continue
+                sess.stats['c06_failures_followed'] += 1
+                final = self.status(task)
+                if final != 'FAILED':
+                    sess.violation('c06:failed-task-wrong-status',
+                                   'the payload of task %s ended by raising %s but the task is '
+                                   '%s' % (event[1], event[3], final))
+                wrong = [kind for _, kind, _, _, _, _ in env.await_results.get(event[1], ())
+                         if not kind.startswith('exc:')]
+                if wrong:
+                    sess.violation('c06:outcome-does-not-match-status',
+                                   'the payload of task %s ended by raising %s but awaiters '
+                                   'received %s' % (event[1], event[3], wrong))
+        for name, value in env.returned.items():
+            task = env.task_inst.get(name)
+            if task is None:
+                continue
+            sess.stats['c06_results_followed'] += 1
+            final = self.status(task)
+            if final != 'SUCCESS':
+                sess.violation('c06:finished-task-wrong-status',
+                               'the payload of task %s returned %s but the task is %s' % (
+                                   name, value, final))
+            wrong = [(kind, ident) for _, kind, ident, _, _, _ in env.await_results.get(name, ())
+                     if kind != 'value' or ident != value]
+            if wrong:
+                sess.violation('c06:outcome-does-not-match-status',
+                               'the payload of task %s returned %s but awaiters received %s' % (
+                                   name, value, wrong))
         for name, seq in self.history.items():
             if seq and seq[0] not in ('CREATED', 'RUNNING'):
                 pass    # first sampled after it finished within one turn: fine
